@@ -6,7 +6,10 @@ package handlers
 // contract-level reference store (the backends' conformance to it is C01's subject).
 
 import (
+	"bytes"
 	"encoding/json"
+	"hash"
+	"io"
 	"net/http"
 	"net/url"
 	"strconv"
@@ -394,4 +397,70 @@ func VK18dStatLimit() {
 	}
 	vrt.Assert(len(res.Stat) == 1 && res.Stat[0].Ref == blob.VerifSmallRef(1) && res.Stat[0].Size == 2, "the last value of a full batch is reported")
 	vrt.Cover("full")
+}
+
+// K18e: what a client PUTs it can stat and finds exactly once in an enumeration - through the
+// handlers only. The digest comparison is modelled (C02 decides it): the upload's bytes match
+// the ref or not, symbolically.
+func VK18eUploadThenRead() {
+	vStubs()
+	vStatRes, vBadReq = nil, false
+	matches := vrt.Bool()
+	vrt.Stub("(perkeep.org/pkg/blob.Ref).HashMatches", func(r blob.Ref, h hash.Hash) bool { return matches })
+	vrt.Stub("perkeep.org/internal/httputil.ReturnJSON", func(rw http.ResponseWriter, data any) {
+		vStatRes = data.(*protocol.StatResponse)
+		rw.WriteHeader(200)
+	})
+	vrt.Stub("perkeep.org/internal/httputil.BadRequestError", func(rw http.ResponseWriter, msg string, args ...any) {
+		vBadReq = true
+		rw.WriteHeader(400)
+	})
+	vrt.Stub("perkeep.org/internal/httputil.ServeError", func(rw http.ResponseWriter, req *http.Request, err error) {
+		rw.WriteHeader(500)
+	})
+	st := &vmodel.Store{}
+	other := blob.VerifSmallRef(1)
+	if vrt.Bool() {
+		st.Put(other, []byte("zz"))
+	}
+	br := blob.VerifSmallRef(2)
+	data := vrt.Bytes(1 + vrt.Choice(2))
+	rw := &vRW{}
+	put := &http.Request{Method: "PUT", URL: &url.URL{Path: "/bs/camli/" + br.String()}, Header: http.Header{},
+		Body: io.NopCloser(bytes.NewReader(data)), ContentLength: int64(len(data))}
+	CreatePutUploadHandler(st).ServeHTTP(rw, put)
+	if !matches {
+		vrt.Assert(rw.status == 400, "an upload whose bytes do not match the ref is refused")
+		vrt.Assert(!st.Has(br), "a refused upload stores nothing")
+		vrt.Cover("corrupt")
+		return
+	}
+	vrt.Assert(rw.status == 204, "a matching upload is acknowledged")
+	// stat through the protocol
+	vStatRes = nil
+	srw := &vRW{}
+	handleStat(srw, &http.Request{Method: "POST", Form: url.Values{"camliversion": {"1"}, "blob1": {br.String()}}}, st)
+	vrt.Assert(vStatRes != nil && len(vStatRes.Stat) == 1 && vStatRes.Stat[0].Ref == br && int(vStatRes.Stat[0].Size) == len(data),
+		"what was uploaded is stat-ed with its size")
+	// enumerate through the protocol
+	erw := &vRW{}
+	handleEnumerateBlobs(erw, &http.Request{Method: "GET", Form: url.Values{}}, st)
+	pg := vParsePage(string(erw.body))
+	n := 0
+	for i, s := range pg.refs {
+		if s == br.String() {
+			n++
+			vrt.Assert(pg.sizes[i] == vItoa(len(data)), "the enumeration lists the upload with its size")
+		}
+	}
+	vrt.Assert(n == 1, "what was uploaded is found exactly once in the enumeration")
+	got := st.Get(br)
+	ok := len(got) == len(data)
+	for i := 0; ok && i < len(got); i++ {
+		if got[i] != data[i] {
+			ok = false
+		}
+	}
+	vrt.Assert(ok, "the stored bytes are the uploaded bytes")
+	vrt.Cover("stored")
 }
